@@ -177,6 +177,8 @@ class C13(Check):
                     tainted = True
             elif out == "no_progress":
                 v.violate("C13", f"no_progress/{cc}/{pattern}", [], ev.get("exc"), ev["seq"], "A")
+            elif out == "slow_convergence":
+                v.probe("step_cap_on_monotone_descent(inconclusive)")
             elif out == "false":
                 n_results += 1
                 if ev.get("faults"):
@@ -203,7 +205,7 @@ class C13(Check):
                 n_results += 1
                 had_solution = True
                 f = self.evaluate_event(plan, result, ev)
-                v.unspecified += f.unspecified
+                v.absorb_unspecified(f)
                 v.rules_checked += f.checked
                 for it in f.items:
                     if it["prop"] in self.props:
